@@ -9,7 +9,7 @@ import csv
 import re
 import sys
 
-from os.path import basename
+from os.path import basename, exists
 
 from lxml import etree as ET
 from lxml.builder import E
@@ -121,8 +121,13 @@ def from_csv(value_string):
         return []
     stream = StringIO(value_string)
     stream.seek(0)
-    reader = csv.reader(stream, dialect="excel")
-    return list(reader)[0]
+    # A single value may be longer than the default csv field size limit.
+    old_limit = csv.field_size_limit(max(csv.field_size_limit(), len(value_string)))
+    try:
+        reader = csv.reader(stream, dialect="excel")
+        return list(reader)[0]
+    finally:
+        csv.field_size_limit(old_limit)
 
 
 class XMLWriter:
@@ -305,6 +310,12 @@ class XMLReader(object):
                 xml_file.close()
         except ET.XMLSyntaxError as exc:
             raise ParserException(exc.msg)
+        except OSError as exc:
+            # lxml reports bytes that are invalid in the encoding of the file
+            # as an OSError; a missing file is not a parser problem.
+            if isinstance(xml_file, str) and not exists(xml_file):
+                raise
+            raise ParserException(str(exc))
 
         self._handle_version(root)
         doc = self.parse_element(root)
